@@ -937,7 +937,9 @@ class Context:
 
         def parseInt_fn(*args):
             s = to_string(args[0]) if args else ""
-            radix = to_integer(args[1]) if len(args) > 1 else 10
+            radix = to_integer(args[1]) if len(args) > 1 else 0
+            # The 0x prefix selects base 16 only when no other base was asked for
+            hex_prefix = radix == 0 or radix == 16
             if radix == 0:
                 radix = 10
             if radix < 2 or radix > 36:
@@ -953,7 +955,7 @@ class Context:
             elif s.startswith("+"):
                 s = s[1:]
             # Handle 0x prefix for hex
-            if s.startswith("0x") or s.startswith("0X"):
+            if hex_prefix and (s.startswith("0x") or s.startswith("0X")):
                 radix = 16
                 s = s[2:]
             # Parse digits
@@ -1295,7 +1297,9 @@ class Context:
     def _global_parseint(self, *args):
         """Global parseInt."""
         s = to_string(args[0]) if args else ""
-        radix = to_integer(args[1]) if len(args) > 1 else 10
+        radix = to_integer(args[1]) if len(args) > 1 else 0
+        # The 0x prefix selects base 16 only when no other base was asked for
+        hex_prefix = radix == 0 or radix == 16
         if radix == 0:
             radix = 10
         if radix < 2 or radix > 36:
@@ -1309,7 +1313,7 @@ class Context:
             s = s[1:]
         elif s.startswith("+"):
             s = s[1:]
-        if s.startswith("0x") or s.startswith("0X"):
+        if hex_prefix and (s.startswith("0x") or s.startswith("0X")):
             radix = 16
             s = s[2:]
         result = 0
